@@ -480,6 +480,9 @@ func (w *W) decodeGen(t *gcore.Type, x any, b []byte) (tree *dynamicpb.Message, 
 	if panicked != "" || err != nil {
 		return nil, err, panicked
 	}
+	if !bytes.Equal(in, b) {
+		return nil, nil, fmt.Sprintf("Unmarshal modified the caller's input buffer: %x", in)
+	}
 	tree, terr := gcore.TreeOf(t, x)
 	if terr != nil {
 		return nil, nil, "reading the struct back: " + terr.Error()
